@@ -118,6 +118,15 @@ RemoveChild(k, su) == NonSeedKey(k) /\
 EncodeBipartitions(su, cb) == OSC(su, cb) /\
     Do("EncodeBipartitions", [Call0("EncodeBipartitions") EXCEPT !.su = su, !.cb = cb, !.ub = TRUE], OpEncodeBipartitions(g, su, cb), TRUE)
 
+\* error-path family: calls the library refuses with a documented error; the tree must stay as it was.
+\* (explored as the first call of a history; later positions are covered by the random histories)
+ErrOk == depth = 0
+RemoveNonChild(k, j, su) == ErrOk /\ HasKey(g, k) /\ HasKey(g, j) /\ k # j /\ g.par[N(k)] # N(j) /\
+    Do("RemoveNonChild", [Call0("RemoveNonChild") EXCEPT !.x = k, !.y = j, !.su = su], R(g, "ValueError"), FALSE)
+AddChildSelf(k) == ErrOk /\ HasKey(g, k) /\
+    Do("AddChildSelf", [Call0("AddChildSelf") EXCEPT !.x = k], R(g, "AssertionError"), FALSE)
+AddChildParent(k) == ErrOk /\ NonSeedKey(k) /\
+    Do("AddChildParent", [Call0("AddChildParent") EXCEPT !.x = k, !.y = g.key[g.par[N(k)]]], R(g, "AssertionError"), FALSE)
 Keys == 1..MaxK
 \* cfg files cannot write tuples: EdgePairs <- one of these
 EdgePairsSmall == {<<-1, -1>>, <<16, 32>>}
@@ -147,6 +156,9 @@ Next == \/ \E k \in Keys, ub \in BOOLEAN, su \in BOOLEAN, cb \in BOOLEAN : Resee
         \/ \E k \in Keys, i \in 0..2 : InsertChild(k, i)
         \/ \E k \in Keys, su \in BOOLEAN : RemoveChild(k, su)
         \/ \E su \in BOOLEAN, cb \in BOOLEAN : EncodeBipartitions(su, cb)
+        \/ \E k \in Keys, j \in Keys, su \in BOOLEAN : RemoveNonChild(k, j, su)
+        \/ \E k \in Keys : AddChildSelf(k)
+        \/ \E k \in Keys : AddChildParent(k)
 Spec == Init /\ [][Next]_vars
 
 \* ------------------------------------------------------------ the properties
